@@ -142,10 +142,10 @@ theorem keyIndex_mp (key : Bytes) {x x' : GoVal} (h : MP x x') : MP (keyIndex ke
   cases ht with
   | refl => exact .refl _
   | map kt vt hv hk hn hm hp ht' =>
-    cases kt <;> first | exact .refl _ | exact (mapFind_mp (MP.map .str vt hv hk hn hm hp ht') _).2.2.2.getD
+    cases kt <;> first | exact .refl _ | exact (mapFind_mp (MP.map .str vt hv hk hn hm hp ht') _).2.2.2.getD.toLiquid
   | mapVals kt vt hv hn hm =>
-    cases kt <;> first | exact .refl _ | exact (mapFind_mp (MP.mapVals .str vt hv hn hm) _).2.2.2.getD
-  | keyedMap hn hf => exact (lookupFields_mpf hf key).getD
+    cases kt <;> first | exact .refl _ | exact (mapFind_mp (MP.mapVals .str vt hv hn hm) _).2.2.2.getD.toLiquid
+  | keyedMap hn hf => exact (lookupFields_mpf hf key).getD.toLiquid
   | _ => exact .refl _
 
 theorem lessByKeyM_mp (key : Bytes) {a a' b b' : GoVal} (ha : MP a a') (hb : MP b b') :
@@ -198,13 +198,13 @@ theorem sortWith_mp (strict : Bool) {xs xs' : List GoVal} {k k' : GoVal} (hx : M
     split
     · exact RRel.unmL rfl _ _
     · exact MP.slice _ hy
-  have keyed : ∀ kk kk' : GoVal, kk ≠ .nil → kk' ≠ .nil → RRel true Eq (sprint kk) (sprint kk') →
+  have keyed : ∀ kk kk' : GoVal, kk ≠ .nil → kk' ≠ .nil → RRel true Eq (sprintR kk) (sprintR kk') →
       RRel true MP (sortWith strict [.slice .any xs, kk]) (sortWith strict [.slice .any xs', kk']) := by
     intro kk kk' hn hn' hs
-    have e1 : sortWith strict [.slice .any xs, kk] = (sprint kk).bind fun k => (sortByM k xs).bind fun ys =>
+    have e1 : sortWith strict [.slice .any xs, kk] = (sprintR kk).bind fun k => (sortByM k xs).bind fun ys =>
         if strict && !stableEnough (sortByLe k) ys then tieOrder else .ok (.slice .any ys) := by
       cases kk <;> first | exact absurd rfl hn | rfl
-    have e2 : sortWith strict [.slice .any xs', kk'] = (sprint kk').bind fun k => (sortByM k xs').bind fun ys =>
+    have e2 : sortWith strict [.slice .any xs', kk'] = (sprintR kk').bind fun k => (sortByM k xs').bind fun ys =>
         if strict && !stableEnough (sortByLe k) ys then tieOrder else .ok (.slice .any ys) := by
       cases kk' <;> first | exact absurd rfl hn' | rfl
     rw [e1, e2]
@@ -221,7 +221,7 @@ theorem sortWith_mp (strict : Bool) {xs xs' : List GoVal} {k k' : GoVal} (hx : M
     subst this
     exact plain
   · have hn' : k' ≠ .nil := fun e => hn ((mp_nil_iff hk).mpr e)
-    exact keyed k k' hn hn' (sprint_mp hk)
+    exact keyed k k' hn hn' (sprintR_mp hk)
 
 theorem sort_respectsM : ImplRespectsM [.val .anys, .val .any] (eager sort) := by
   intro cs cs' h
@@ -353,14 +353,14 @@ theorem sortNaturalWith_mp (strict : Bool) {xs xs' : List GoVal} {k k' : GoVal} 
     exact fin natKey (fun x x' h => natKey_mp h)
   · have hn' : k' ≠ .nil := fun e => hn ((mp_nil_iff hk).mpr e)
     have e1 : sortNaturalWith strict [.slice .any xs, k] =
-        ((sprint k).bind fun name => Res.ok (natKeyBy name)).bind fun f => (sortNatM strict f xs).bind fun ys => .ok (.slice .any ys) := by
+        ((sprintR k).bind fun name => Res.ok (natKeyBy name)).bind fun f => (sortNatM strict f xs).bind fun ys => .ok (.slice .any ys) := by
       cases k <;> first | exact absurd rfl hn | rfl
     have e2 : sortNaturalWith strict [.slice .any xs', k'] =
-        ((sprint k').bind fun name => Res.ok (natKeyBy name)).bind fun f => (sortNatM strict f xs').bind fun ys => .ok (.slice .any ys) := by
+        ((sprintR k').bind fun name => Res.ok (natKeyBy name)).bind fun f => (sortNatM strict f xs').bind fun ys => .ok (.slice .any ys) := by
       cases k' <;> first | exact absurd rfl hn' | rfl
     rw [e1, e2]
-    have hs := sprint_mp hk
-    cases h1 : sprint k <;> cases h2 : sprint k' <;> rw [h1, h2] at hs <;> simp only [RRel] at hs <;> simp only [Res.bind] <;>
+    have hs : RRel true Eq (sprintR k) (sprintR k') := sprintR_mp hk
+    cases h1 : sprintR k <;> cases h2 : sprintR k' <;> rw [h1, h2] at hs <;> simp only [RRel] at hs <;> simp only [Res.bind] <;>
       first
         | (subst hs; exact fin _ (fun x x' h => RRel.of_eq (fun _ => rfl) (natKeyBy_mp _ h)))
         | exact RRel.unmL rfl _ _
